@@ -48,7 +48,7 @@ type Work struct {
 	Cut     int    `json:"cut,omitempty"`      // >0: the source text handed to the interpreter ends after this many bytes (a program that arrives truncated)
 }
 
-const nSites = 131
+const nSites = 135
 const nWraps = 7
 
 func siteSrc(k int, id string) string {
@@ -328,6 +328,18 @@ func siteSrc(k int, id string) string {
 		return "sa" + id + " = 1\nsp" + id + " = &sa" + id + "\n*sp" + id + " = sp" + id + "\ntry { if sp" + id + " { } } catch { }\ntry { sb" + id + " = !sp" + id + " } catch { }\ntry { sc" + id + " = sp" + id + " && true } catch { }\ntry { sd" + id + " = sp" + id + " ? 1 : 2 } catch { }\ntry { for sp" + id + " { break } } catch { }\nh(" + id + ")"
 	case 129:
 		return "sa" + id + " = 1\nsp" + id + " = &sa" + id + "\n*sp" + id + " = sp" + id + "\ntry { se" + id + " = [1, 2, 3][sp" + id + "] } catch { }\ntry { sf" + id + " = sp" + id + " + 1 } catch { }\ntry { sg" + id + " = make([]int64, sp" + id + ") } catch { }\ntry { sh" + id + " = \"ab\"[sp" + id + ":] } catch { }\ntry { si" + id + " = 1.5 * sp" + id + " } catch { }\ntry { sj" + id + " = sp" + id + " < 2 } catch { }\ntry { sk" + id + " = -sp" + id + " } catch { }\nh(" + id + ")"
+	// nil pointers and nil elements as operands of + (string on the left, slice on the left) and as the source of a
+	// pointer-to-pointer conversion
+	case 130:
+		return "np" + id + " = make([]*int64, 1)\ntry { sx" + id + " = \"x\" + np" + id + "[0] } catch { }\nst" + id + " = make(struct { A *int64 })\ntry { sy" + id + " = \"y\" + st" + id + ".A } catch { }\ntry { sz" + id + " = []int64{1} + [nil] } catch { }\ntry { sw" + id + " = [1] + [nil, 2] } catch { }\nh(" + id + ")\nsv" + id + " = \"v\" + np" + id + "[0]"
+	case 131:
+		return "pa" + id + " = make([]*int64, 1)\npb" + id + " = make([]*int32, 1)\ntry { pb" + id + "[0] = pa" + id + "[0] } catch { }\npc" + id + " = make([]*string, 2)\ntry { pc" + id + "[1] = pa" + id + "[0] } catch { }\nh(" + id + ")\npb" + id + "[0] = pa" + id + "[0]"
+	// a module used as an element type: the zero element is a module that is not there
+	case 132:
+		return "module mz" + id + " { q = 1 }\nmake(type EZ" + id + ", mz" + id + ")\naz" + id + " = make([]EZ" + id + ", 2)\ntry { bz" + id + " = az" + id + "[0].q } catch { }\ntry { az" + id + "[0].q = 1 } catch { }\ntry { cz" + id + " = az" + id + "[1] } catch { }\nh(" + id + ")\ndz" + id + " = az" + id + "[0].q"
+	// degenerate forms the grammar accepts: a spread with nothing to spread, a var statement without a right-hand side
+	case 133:
+		return "func zf" + id + "(a) { return a }\ntry { zf" + id + "(...) } catch { }\ntry { hid(...) } catch { }\nh(" + id + ")\nif " + id + " % 2 == 0 { zf" + id + "(...) }\nvar zv" + id + " ="
 	default:
 		return "x" + id + " = hid(1) & hid(\"z\")\ny" + id + " = hid(1.5) | hid(nil)\nz" + id + " = hid({}) ^ 1\nw" + id + " = hid([1, 2]) + hid({\"a\": 1})\nv" + id + " = hid(nil) < hid([1])\nu" + id + " = hid(func() { }) == hid(func() { })"
 	}
